@@ -117,7 +117,7 @@ def elem_of(x: AV) -> AV:
 
 @dataclass
 class Event:
-    kind: str  # write | attrstore | globalstore
+    kind: str  # write | attrstore | globalstore | flagset
     origin: Origin
     attr: Optional[str]
     node: ast.AST
@@ -458,6 +458,26 @@ class FunctionAnalysis:
             return
         self._ev_keys.add(k)
         self.summary.events.append(ev)
+
+    def _same_object(self, e) -> bool:
+        """the expression denotes an object that exists outside this function (a parameter, an attribute, an item of a
+        collection handed in), not an array object made here (a slice / view / reshape / arithmetic result)"""
+        if isinstance(e, ast.Attribute):
+            return True
+        if isinstance(e, ast.Name):
+            fresh_makers = (ast.Subscript, ast.BinOp, ast.UnaryOp, ast.Call)
+            for x in ast.walk(self.fi.node):
+                if isinstance(x, ast.Assign) and any(isinstance(t, ast.Name) and t.id == e.id for t in x.targets):
+                    v = x.value
+                    if isinstance(v, ast.Call):
+                        f = v.func
+                        nm = f.attr if isinstance(f, ast.Attribute) else (f.id if isinstance(f, ast.Name) else "")
+                        if nm in ("asarray", "asanyarray"):
+                            continue      # may hand back the very object
+                    if isinstance(v, fresh_makers):
+                        return False
+            return True
+        return False
 
     def write_through(self, av: AV, node, how, needs_nd=False):
         for o in av.is_:
@@ -1207,6 +1227,32 @@ class FunctionAnalysis:
                     b[pn] = elem_of(sv)
         return b
 
+    @staticmethod
+    def _arg_expr(fi: FunctionInfo, call, pname):
+        """the argument expression bound to `pname` at this call (None when it cannot be told: *args, a method receiver)"""
+        if not isinstance(call, ast.Call):
+            return None
+        a = fi.node.args
+        names = [x.arg for x in a.posonlyargs + a.args]
+        if fi.cls is not None and fi.kind not in ("staticmethod",) and isinstance(call.func, ast.Attribute) and names:
+            if pname == names[0]:
+                return call.func.value
+            names = names[1:]
+        for kw in call.keywords:
+            if kw.arg == pname:
+                return kw.value
+        if a.vararg is not None and pname == a.vararg.arg:
+            extra = call.args[len(names):]
+            # every extra positional argument must be an outside object for the effect to reach the caller
+            if extra and all(isinstance(x, (ast.Name, ast.Attribute)) for x in extra):
+                return extra[0]
+            return extra[0] if extra else None
+        if pname in names:
+            k = names.index(pname)
+            if k < len(call.args) and not any(isinstance(x, ast.Starred) for x in call.args[:k + 1]):
+                return call.args[k]
+        return None
+
     def subst_origin(self, o: Origin, binding: Dict[str, AV]) -> List[Tuple[Origin, AV]]:
         """Map a callee origin to caller origins. Returns (origin, actual) pairs."""
         if not o.is_arg:
@@ -1272,6 +1318,8 @@ class FunctionAnalysis:
                 self.emit(ev.kind, ev.origin, ev.node, ev.how, attr=ev.attr, needs_nd=ev.needs_nd, func=ev.func,
                           chain=(site,) + ev.chain)
                 continue
+            if ev.kind == "flagset" and not self._same_object(self._arg_expr(fi, n, ev.origin.param)):
+                continue      # the callee set the flag of an object the call site made for it (a view, a copy)
             for o, actual in self.subst_origin(ev.origin, binding):
                 if ev.needs_nd and actual is not None and actual.kind in ("scalar", "str", "none") and not ev.origin.path:
                     continue
@@ -1306,6 +1354,15 @@ class FunctionAnalysis:
         self.summary.ext_calls.append((f"<method>.{name}", n))
         if "out" in kwargs:
             self.write_through(kwargs["out"], n, f"out= keyword of .{name}()")
+        if name == "setflags":
+            # the writeable flag belongs to the array OBJECT, not to the memory it shares: setting it on a fresh view
+            # (`a[:, 0].setflags(...)`, `a.view().setflags(...)`) leaves the caller's array as it was.  On the caller's own
+            # object it is an effect of its own kind ("flagset"): not a write into the data — whether it is put back is decided
+            # by the flag rule (PU-FLAGS), not by the write rules
+            if self._same_object(n.func.value if isinstance(n.func, ast.Attribute) else None):
+                for o in recv.is_:
+                    self.emit("flagset", o, n, "array flags changed with .setflags()")
+            return AV(kind="none")
         if name in MUTATOR_METHODS:
             if name in ("pop", "get", "setdefault", "popitem", "popleft") :
                 if name in ("pop", "popitem", "popleft", "setdefault"):
